@@ -1214,3 +1214,100 @@ if __name__ == '__main__':
     import sys as _sys
     if '--cross-isolated' in _sys.argv:
         _cross_isolated_main()
+
+
+# --------------------------------------------------------------------------
+# message-form table (SSHSIG): bytes / file name / PurePath / digest / keygen
+# --------------------------------------------------------------------------
+
+class MsgWorld:
+    """Messages of the table's sizes, their altered versions, as bytes and as
+    files; signatures made in every form (cached)."""
+
+    def __init__(self, scr, kalg='ssh-ed25519'):
+        import hashlib
+        self.hashlib = hashlib
+        self.scr = scr
+        self.k = pool()[kalg]['k']
+        self.text = ('* ' + self.k.export_public_key('openssh')
+                     .decode('ascii')).encode()
+        self.keyfile = scr.write('msg_key',
+                                 self.k.export_private_key('openssh'))
+        self.allowed = scr.write('msg_allowed', self.text + b'\n', 0o644)
+        self.msgs = {}
+        self.sigs = {}
+
+    @staticmethod
+    def pad_to(n, ch):
+        return n if n % ch == 0 else (n // ch + 1) * ch
+
+    def message(self, size, rel):
+        ck = (size, rel)
+        if ck not in self.msgs:
+            base = bytes((i * 31 + 7) % 251 + 1 for i in range(size))
+            if rel == 'same':
+                data = base
+            elif rel == 'pad8k':
+                data = base + b'\0' * (self.pad_to(size, 8192) - size)
+            elif rel == 'pad64k':
+                data = base + b'\0' * (self.pad_to(size, 65536) - size)
+            elif rel == 'extended':
+                data = base + b'\x01'
+            else:
+                data = base[:-1]
+            path = self.scr.write(f'msg_{size}_{rel}', data, 0o644)
+            self.msgs[ck] = (data, path)
+        return self.msgs[ck]
+
+    def sign(self, sform, size, hash_name):
+        ck = (sform, size, hash_name)
+        if ck in self.sigs:
+            return self.sigs[ck]
+        data, path = self.message(size, 'same')
+        if sform == 'bytes':
+            sig = asyncssh.create_sshsig(self.k, data, hash_name=hash_name,
+                                         namespace=NS)
+        elif sform == 'file':
+            sig = asyncssh.create_sshsig(self.k, path, hash_name=hash_name,
+                                         namespace=NS)
+        elif sform == 'hashed':
+            sig = asyncssh.create_sshsig(
+                self.k, self.hashlib.new(hash_name, data).digest(),
+                is_hashed=True, hash_name=hash_name, namespace=NS)
+        else:
+            if os.path.exists(path + '.sig'):
+                os.remove(path + '.sig')
+            p = _run([SSH_KEYGEN, '-Y', 'sign', '-f', self.keyfile, '-n', NS,
+                      '-O', 'hashalg=' + hash_name, path])
+            if p.returncode != 0:
+                sig = None
+            else:
+                with open(path + '.sig', 'rb') as f:
+                    sig = f.read()
+        self.sigs[ck] = sig
+        return sig
+
+    def verify(self, vform, sig, size, rel, hash_name):
+        """-> accepted bool (None: cannot be evaluated), exception"""
+        import pathlib
+        data, path = self.message(size, rel)
+        try:
+            if vform == 'bytes':
+                r = asyncssh.validate_sshsig(data, sig, PRINCIPAL, self.text)
+            elif vform == 'file':
+                r = asyncssh.validate_sshsig(path, sig, PRINCIPAL, self.text)
+            elif vform == 'path':
+                r = asyncssh.validate_sshsig(pathlib.PurePath(path), sig,
+                                             PRINCIPAL, self.text)
+            elif vform == 'hashed':
+                r = asyncssh.validate_sshsig(
+                    self.hashlib.new(hash_name, data).digest(), sig,
+                    PRINCIPAL, self.text, is_hashed=True)
+            else:
+                s = self.scr.write('msg_v.sig', sig)
+                p = _run([SSH_KEYGEN, '-Y', 'verify', '-f', self.allowed,
+                          '-I', PRINCIPAL, '-n', NS, '-s', s], input=data)
+                r = p.returncode == 0
+            return r is True, None
+        except Exception as exc:        # pylint: disable=broad-except
+            return False, exc
